@@ -11,7 +11,7 @@ def run(ctx):
     ctx.rule = ("(domain, m) pairs: every integer domain of a grid embedded at decades 1e-6..1e9 and either orientation, plus seeded random "
                 "float domains (magnitude 1e-6..1e9, span 1e-3.5..1e1.5 of the magnitude); non-trivial = at least two ticks; distinct by (domain, m)")
     ctx.assumptions += ["floats are projected to integers in units of step/1000 (step/10 when the offset/step ratio is large); domains whose "
-                        "offset exceeds ~2e7 steps do not fit 32 bits and are discarded (counted)",
+                        "offset exceeds ~2e7 steps are recorded relative to the last multiple of the step below the domain; what still does not fit 32 bits is discarded (counted)",
                         "the (mantissa, exponent) of the step is proposed by the harness and validated by TLC through C13_Multiples"]
     ctx.model("MCLinTicks", "MCLinTicks_quick.cfg" if quick else "MCLinTicks_thorough.cfg", workers=core.NCPU, heap="4g",
               label="tick step / count / completeness / nice laws on every integer domain of the grid x m")
